@@ -85,6 +85,31 @@ func (p *Prog) ErrAtomsCached() *ErrAtoms {
 	return p.ea
 }
 
+// The trim and compaction helpers (C15, C16) remove messages through Log.Delete and nothing else: every
+// clause that is necessary for "Delete removes exactly what it was asked to and keeps the rest
+// readable" (C12) is necessary for them too.
+func withDependants(props []string) []string {
+	has := map[string]bool{}
+	for _, pr := range props {
+		has[pr] = true
+	}
+	if has["C12"] {
+		for _, d := range []string{"C15", "C16"} {
+			if !has[d] {
+				props = append(append([]string{}, props...), d)
+				has[d] = true
+			}
+		}
+	}
+	return props
+}
+
+func init() {
+	for i := range rules {
+		rules[i].Props = withDependants(rules[i].Props)
+	}
+}
+
 func main() {
 	var (
 		repo     = flag.String("repo", "/repo", "repository root")
@@ -187,6 +212,9 @@ func run(repo, prop, tier, outDir, verifDir string, list bool, onlyRule string) 
 		}
 		ran = append(ran, r.ID)
 		obs = append(obs, r.Run(p)...)
+	}
+	for i := range obs {
+		obs[i].Props = withDependants(obs[i].Props)
 	}
 	sortObs(obs)
 	// known findings (recorded, unrepaired defects) are shown as such, not as new violations
